@@ -13,13 +13,16 @@ import ModbusVerif.Props.C05
 
   What is proved is the LOGIC of the transports, over the trace of I/O primitives
   (`Model/IoTrace.lean`: `SetDeadline`, `Write`, the `Read` calls of `io.ReadFull`, `Sleep`):
-    * one absolute deadline is armed once per exchange, before the first read, and never
-      re-armed inside the skip loop (RTU: one more, 500 µs, for the final flush only);
+    * MBAP: one absolute deadline is armed once per exchange, before the first read, and never
+      re-armed inside the skip loop. RTU (code since fix c501b6a): exactly two - one in front of
+      the inter-frame sleeps and the `Write`, one behind them, immediately in front of the first
+      read - and never one inside `readRTUFrame` (one more, 500 µs, for the final flush only);
     * every iteration of the skip loop consumes at least 8 bytes of input, so the loop cannot spin;
     * the trace and the value-level model (`Mbap.readResponse`, `Rtu.readFrame`/`afterRead`)
       agree on what is consumed;
     * under the assumptions A-deadline and A-sleep (`Io.durOk`) the call ends no later than
-      `t0 + T` (MBAP) resp. `t0 + T + rtuMargin` (RTU), for EVERY byte stream and EVERY
+      `t0 + T` (MBAP) resp. `t0 + T + rtuMargin + dWrite` (RTU; `dWrite`: the time `Write` took,
+      which A-deadline bounds by the first deadline), for EVERY byte stream and EVERY
       assignment of durations to the primitives.
   Quantifier: all byte streams `s` (any length: silence, truncation at any offset, floods of
   foreign frames, garbage), all transaction ids, all timeouts, all rates, all endings.
@@ -53,18 +56,21 @@ theorem C07_single_deadline_mbap (T L : Nat) (txn : U16) (s : Bytes) :
   rw [List.filter_cons_of_pos (by rfl), List.filter_cons_of_neg (by simp [Io.Op.isSetDeadline])]
   simp [this]
 
-/-- RTU: `SetDeadline(T)` comes first; then sleeps and the write (`pre`), then the reads of
-    `readRTUFrame`, then either nothing or the resynchronisation tail
-    `Sleep(256·t1)`, `SetDeadline(500 µs)`, flush reads. At most two deadlines in all; the
-    second one comes after every frame read and is followed by the flush reads only. -/
+/-- RTU: `SetDeadline(T)` comes first; then sleeps and the write (`pre`); then `SetDeadline(T)`
+    again; then the reads of `readRTUFrame` and nothing else - no deadline is armed between the
+    first read and the end of `readRTUFrame`; then either nothing or the resynchronisation tail
+    `Sleep(256·t1)`, `SetDeadline(500 µs)`, flush reads. Exactly two deadlines per exchange, a
+    third one exactly when the exchange ends with the flush; that one comes after every frame
+    read and is followed by the flush reads only. -/
 theorem C07_deadlines_rtu (T rate L w post : Nat) (s : Bytes) (e : Ending) :
     ∃ pre reads tail,
-      rtuTrace T rate L w post s e = .setDeadline T :: (pre ++ reads ++ tail) ∧
+      rtuTrace T rate L w post s e =
+        .setDeadline T :: (pre ++ .setDeadline T :: (reads ++ tail)) ∧
       (∀ op ∈ pre, op.isSetDeadline = false ∧ op.isRead = false) ∧
       (∀ op ∈ reads, op.isRead = true) ∧
       (tail = [] ∨ ∃ flush, tail = .sleep (256 * Timing.t1 rate) :: .setDeadline 500000 :: flush ∧
         ∀ op ∈ flush, op.isRead = true) ∧
-      countDeadlines (rtuTrace T rate L w post s e) ≤ 2 := by
+      countDeadlines (rtuTrace T rate L w post s e) = (if tail = [] then 2 else 3) := by
   refine ⟨rtuPre L w post, rtuReadOps s, rtuTail rate (Rtu.readFrame s e), rtuTrace_eq .., ?_,
     rtuReadOps_isRead s, ?_, countDeadlines_rtuTrace ..⟩
   · exact (rtuPre_spec L w post).1
@@ -163,27 +169,67 @@ theorem C07_elapsed_any_reads (ε T t0 : Nat) (dl0 : Option Nat) (ops : List Io.
 /-! ## 5. elapsed time, RTU -/
 
 /-- for every stream, ending and assignment of durations: the call ends no later than
-    `t0 + T + rtuMargin rate w post ε`, where
-    `rtuMargin = [w + ε if w > 0] + (post + ε) + (256·t1(rate) + ε) + 500000` -/
+    `t0 + T + rtuMargin rate w post ε + dWr`, where
+    `rtuMargin = [w + ε if w > 0] + (post + ε) + (256·t1(rate) + ε) + 500000` and `dWr` is the
+    time the `Write` of the run took. (Since fix c501b6a the timeout `T` is counted from the
+    moment the request has left the line: the second `SetDeadline`, armed after the
+    post-transmission sleep; so the time `Write` takes is no longer absorbed by `T`.)
+    A-deadline bounds `dWr` by the FIRST deadline: `tW + dWr ≤ max tW (t0 + T)`, `tW` = the
+    clock when `Write` is called, `t0 + w ≤ tW ≤ t0 + [w + ε]`. -/
 theorem C07_elapsed_rtu (ε T rate L w post t0 : Nat) (dl0 : Option Nat) (s : Bytes) (e : Ending)
     (durs : List (Io.Op × Nat)) (c' : Clock)
     (hmap : durs.map Prod.fst = rtuTrace T rate L w post s e)
     (hrun : runClock ε { now := t0, deadline := dl0 } durs = some c') :
-    c'.now ≤ t0 + T + rtuMargin rate w post ε :=
-  Nat.le_trans (elapsed_rtu hmap hrun).1 rtuMargin_bound
+    ∃ tW dWr, (Io.Op.write L, dWr) ∈ durs ∧ t0 + w ≤ tW ∧
+      tW ≤ t0 + (if w > 0 then w + ε else 0) ∧ tW + dWr ≤ max tW (t0 + T) ∧
+      c'.now ≤ t0 + T + rtuMargin rate w post ε + dWr := by
+  obtain ⟨tW, dWr, h1, h2, h3, h4, h5, _⟩ := elapsed_rtu hmap hrun
+  exact ⟨tW, dWr, h1, h2, h3, h4, Nat.le_trans h5 (rtuMargin_bound h3)⟩
 
-/-- sharper: the sleeps in front of the reads only count as far as they end after the deadline
-    (`max`); and without resynchronisation (reply accepted, or a plain i/o error such as a
-    timeout on a silent line) the end is within the two inter-frame sleeps of the deadline -/
+/-- with a bound `wmax` on the time a `Write` takes (the run's `Write` lasted at most `wmax`):
+    the call ends by `t0 + T + rtuMargin rate w post ε + wmax` -/
+theorem C07_elapsed_rtu_wmax (ε T rate L w post t0 wmax : Nat) (dl0 : Option Nat) (s : Bytes)
+    (e : Ending) (durs : List (Io.Op × Nat)) (c' : Clock)
+    (hmap : durs.map Prod.fst = rtuTrace T rate L w post s e)
+    (hrun : runClock ε { now := t0, deadline := dl0 } durs = some c')
+    (hwr : ∀ d, (Io.Op.write L, d) ∈ durs → d ≤ wmax) :
+    c'.now ≤ t0 + T + rtuMargin rate w post ε + wmax := by
+  obtain ⟨_, dWr, h1, _, _, _, h5⟩ := C07_elapsed_rtu ε T rate L w post t0 dl0 s e durs c' hmap hrun
+  have := hwr dWr h1
+  omega
+
+/-- A-deadline alone (a `Write` may block until the first deadline expires): the reads end no
+    later than `T` after the second deadline was armed, which is no later than
+    `max (t0 + T) (t0 + [w + ε]) + (post + ε)`; without resynchronisation (reply accepted, or a
+    plain i/o error such as a timeout on a silent line) the call ends there. In particular the
+    call ends by `t0 + 2·T + rtuMargin`. -/
 theorem C07_elapsed_rtu_sharp (ε T rate L w post t0 : Nat) (dl0 : Option Nat) (s : Bytes)
     (e : Ending) (durs : List (Io.Op × Nat)) (c' : Clock)
     (hmap : durs.map Prod.fst = rtuTrace T rate L w post s e)
     (hrun : runClock ε { now := t0, deadline := dl0 } durs = some c') :
-    c'.now ≤ max (t0 + T) (t0 + (if w > 0 then w + ε else 0)) + (post + ε) +
+    c'.now ≤ max (t0 + T) (t0 + (if w > 0 then w + ε else 0)) + (post + ε) + T +
       (256 * Timing.t1 rate + ε + 500000) ∧
     (rtuTail rate (Rtu.readFrame s e) = [] →
-      c'.now ≤ max (t0 + T) (t0 + (if w > 0 then w + ε else 0)) + (post + ε)) :=
-  elapsed_rtu hmap hrun
+      c'.now ≤ max (t0 + T) (t0 + (if w > 0 then w + ε else 0)) + (post + ε) + T) ∧
+    c'.now ≤ t0 + 2 * T + rtuMargin rate w post ε := by
+  obtain ⟨tW, dWr, _, h2, h3, h4, h5, h6⟩ := elapsed_rtu hmap hrun
+  have hm := rtuMargin_bound (T := T) (rate := rate) (post := post) (dWr := dWr) h3
+  simp only [Timing.maxRTUFrameLength] at h5 hm
+  generalize (if w > 0 then w + ε else 0) = w' at *
+  generalize 256 * Timing.t1 rate = r at *
+  generalize rtuMargin rate w post ε = m at *
+  generalize (500000 : Nat) = k at *
+  refine ⟨by omega, fun h => by have := h6 h; omega, by omega⟩
+
+/-- the bound `t0 + T + rtuMargin` of the code before fix c501b6a no longer holds: a `Write`
+    that blocks until the first deadline (T = 1000) is followed by a full second timeout -/
+theorem C07_elapsed_rtu_old_bound_false :
+    [(Io.Op.setDeadline 1000, 0), (.write 8, 1000), (.sleep 20, 27), (.setDeadline 1000, 0),
+      (.readEnd 3, 1000)].map Prod.fst = rtuTrace 1000 19200 8 0 20 [] .timeout ∧
+    runClock 7 ⟨0, none⟩
+      [(.setDeadline 1000, 0), (.write 8, 1000), (.sleep 20, 27), (.setDeadline 1000, 0),
+       (.readEnd 3, 1000)] = some ⟨2027, some 2027⟩ ∧
+    ¬ (2027 ≤ max (0 + 1000) (0 + 0) + (20 + 7)) := by decide
 
 /-- the margin is a decreasing function of the baud rate -/
 theorem C07_rtuMargin_anti {r1 r2 : Nat} (h1 : 1 ≤ r1) (h : r1 ≤ r2) (w post ε : Nat) :
@@ -316,20 +362,22 @@ example : mbapTrace 1000000 12 0x1235 (Mbap.assemble 0x1233 (Mbap.rsp03 0 1) ++ 
 example : mbapTrace 1000000 12 0x1235 [0x12, 0x35, 0, 0, 0xFF, 0xFF, 1, 3, 2, 0, 0] =
     [.setDeadline 1000000, .write 12, .read 7 7] := by decide
 
--- RTU at 19200 baud, reply 01 03 02 00 0a 38 43 accepted: no resynchronisation, one deadline
+-- RTU at 19200 baud, reply 01 03 02 00 0a 38 43 accepted: no resynchronisation, two deadlines
 example : rtuTrace 1000000 19200 8 0 5916661 [0x01, 0x03, 0x02, 0x00, 0x0a, 0x38, 0x43] .timeout =
-    [.setDeadline 1000000, .write 8, .sleep 5916661, .read 3 3, .read 4 4] := by decide +kernel
+    [.setDeadline 1000000, .write 8, .sleep 5916661, .setDeadline 1000000, .read 3 3, .read 4 4] := by
+  decide +kernel
 
 -- RTU bad CRC with one pending byte: 256·t1 = 146666496 ns, then the 500 µs flush
 example : rtuTrace 1000000 19200 8 250000 5916661 [0x01, 0x03, 0x02, 0x00, 0x0a, 0x38, 0x44, 0xFF] .timeout =
-    [.setDeadline 1000000, .sleep 250000, .write 8, .sleep 5916661, .read 3 3, .read 4 4,
+    [.setDeadline 1000000, .sleep 250000, .write 8, .sleep 5916661, .setDeadline 1000000,
+     .read 3 3, .read 4 4,
      .sleep 146666496, .setDeadline 500000, .read 1024 1, .readEnd 1023] := by decide +kernel
 
 -- RTU: silence is a plain timeout (no resynchronisation); a stall after 2 bytes is a short frame
 example : rtuTrace 1000000 19200 8 0 5916661 [] .timeout =
-    [.setDeadline 1000000, .write 8, .sleep 5916661, .readEnd 3] := by decide
+    [.setDeadline 1000000, .write 8, .sleep 5916661, .setDeadline 1000000, .readEnd 3] := by decide
 example : rtuTrace 1000000 19200 8 0 5916661 [0x01, 0x03] .timeout =
-    [.setDeadline 1000000, .write 8, .sleep 5916661, .read 3 2, .readEnd 1,
+    [.setDeadline 1000000, .write 8, .sleep 5916661, .setDeadline 1000000, .read 3 2, .readEnd 1,
      .sleep 146666496, .setDeadline 500000, .readEnd 1024] := by decide
 
 -- a concrete duration assignment satisfying A-deadline: the peer stalls, the last Read is cut
@@ -342,15 +390,21 @@ example : runClock 3 ⟨5, none⟩
     [(.setDeadline 100, 0), (.write 12, 1), (.read 7 7, 40), (.read 4 2, 10), (.readEnd 2, 50)] =
     none := by decide
 
--- RTU, the bound of `C07_elapsed_rtu` is attained (ε = 7, T = 1000, no initial wait):
--- Write returns at the deadline, every sleep oversleeps by ε, the flush read waits 500 µs
+-- RTU, the bound `t0 + T + rtuMargin + dWr` of `C07_elapsed_rtu` is attained (ε = 7, T = 1000,
+-- no initial wait): Write returns at the first deadline (dWr = 1000), every sleep oversleeps by
+-- ε, the fragment arrives at the second deadline, the flush read waits 500 µs
 example : runClock 7 ⟨0, none⟩
-    [(.setDeadline 1000, 0), (.write 8, 1000), (.sleep 20, 27), (.read 3 2, 0), (.readEnd 1, 0),
+    [(.setDeadline 1000, 0), (.write 8, 1000), (.sleep 20, 27), (.setDeadline 1000, 0),
+     (.read 3 2, 1000), (.readEnd 1, 0),
      (.sleep 146666496, 146666503), (.setDeadline 500000, 0), (.readEnd 1024, 500000)] =
-    some ⟨1000 + rtuMargin 19200 0 20 7, some (1000 + 27 + 146666503 + 500000)⟩ := by decide
+    some ⟨1000 + rtuMargin 19200 0 20 7 + 1000, some (2027 + 146666503 + 500000)⟩ := by decide
 example : rtuTrace 1000 19200 8 0 20 [0x01, 0x03] .timeout =
-    [.setDeadline 1000, .write 8, .sleep 20, .read 3 2, .readEnd 1,
+    [.setDeadline 1000, .write 8, .sleep 20, .setDeadline 1000, .read 3 2, .readEnd 1,
      .sleep 146666496, .setDeadline 500000, .readEnd 1024] := by decide
+-- the usual case: Write returns at once; the silent line costs T after the post-send sleep
+example : runClock 7 ⟨0, none⟩
+    [(.setDeadline 1000, 0), (.write 8, 0), (.sleep 20, 27), (.setDeadline 1000, 0), (.readEnd 3, 1000)] =
+    some ⟨1027, some 1027⟩ := by decide
 
 example : rtuMargin 19200 0 0 0 = 147166496 := by decide
 example : rtuMargin 9600 0 0 0 = 293833248 := by decide
@@ -370,7 +424,9 @@ end Modbus.Props.C07
 #print axioms Modbus.Props.C07.C07_elapsed_mbap
 #print axioms Modbus.Props.C07.C07_elapsed_any_reads
 #print axioms Modbus.Props.C07.C07_elapsed_rtu
+#print axioms Modbus.Props.C07.C07_elapsed_rtu_wmax
 #print axioms Modbus.Props.C07.C07_elapsed_rtu_sharp
+#print axioms Modbus.Props.C07.C07_elapsed_rtu_old_bound_false
 #print axioms Modbus.Props.C07.C07_rtuMargin_anti
 #print axioms Modbus.Props.C07.C07_rtuMargin_19200
 #print axioms Modbus.Props.C07.C07_silence_is_timeout_all
